@@ -16,8 +16,8 @@
 (*                                                                                 *)
 (* Permissive clauses (DESIGN.md 4.1), each named where it is used:                *)
 (*  P-sbrk   sbrk follows the jam-test-vector convention the code cites (see Sbrk); *)
-(*  P-jumpreg  load_imm_jump / load_imm_jump_ind whose jump panics or halts: the   *)
-(*           destination register may hold the old or the new value (field loose); *)
+(*  (load_imm_jump / load_imm_jump_ind write their register unconditionally, also  *)
+(*   when the jump panics or halts: the instruction tables list both effects.)     *)
 (*  P-fault  a page-fault address anywhere from the start of the page of the       *)
 (*           access to the end of the access is accepted (property statement).     *)
 EXTENDS U64
@@ -330,7 +330,7 @@ Exec(p, s) ==
              ly == Min2(4, Max2(0, l - lx - 1))
              vx == Imm(p, i + 2, lx)
              tgt == Target(p, i, i + 2 + lx, ly)
-         IN IF op = 80 THEN Branch(p, SetR(s, ra, vx), tgt, TRUE, nxt, s, {ra})       \* P-jumpreg
+         IN IF op = 80 THEN Branch(p, SetR(s, ra, vx), tgt, TRUE, nxt, SetR(s, ra, vx), NoLoose)   \* the register write is unconditional
             ELSE Branch(p, s, tgt, BranchCondImm(op, R(s, ra), vx), nxt, s, NoLoose)
     [] op \in OpsReg2 ->
          LET rd == rlo
@@ -369,7 +369,7 @@ Exec(p, s) ==
              ly == Min2(4, Max2(0, l - lx - 2))
              vx == Imm(p, i + 3, lx)
              vy == Imm(p, i + 3 + lx, ly)
-         IN Djump(p, SetR(s, ra, vx), Add(R(s, rb), vy), s, {ra})                      \* P-jumpreg
+         IN Djump(p, SetR(s, ra, vx), Add(R(s, rb), vy), SetR(s, ra, vx), NoLoose)      \* register B is read before the write; the write is unconditional
     [] op \in OpsReg3 ->
          LET ra == rlo
              rb == rhi
